@@ -39,6 +39,9 @@ class LooseIPv4Network:
 
     @classmethod
     def _validate(cls, input_value: Any) -> IPv4Network:
+        if isinstance(input_value, (list, dict)):
+            # Never a network; rejected before `ipaddress` renders it as text (which fails on deeply nested values)
+            raise ValueError("A list or an object is not a network")
         return cls(input_value)
 
 
@@ -68,6 +71,9 @@ class LooseIPv6Network:
 
     @classmethod
     def _validate(cls, input_value: Any) -> IPv6Network:
+        if isinstance(input_value, (list, dict)):
+            # Never a network; rejected before `ipaddress` renders it as text (which fails on deeply nested values)
+            raise ValueError("A list or an object is not a network")
         return cls(input_value)
 
 
